@@ -22,6 +22,7 @@ def configs(tier):
     if tier == 'quick':
         add(spec('localp', 'localp', 2, 1, 3, order=1), 'load')
         add(spec('localp', 'localp', 3, 2, 2, order=2), 'load')
+        for rule in ('semi-localp', 'localp-zero', 'localp-boundary'): add(spec('localp', rule, 3, 1, 2, order=1), 'load')   # sparse-Kronecker surplus path (>= 3 dims, complete hierarchy) per rule
         add(spec('localp', 'semi-localp', 2, 1, 3, order=2), 'load')
         add(spec('localp', 'localp-zero', 2, 1, 2, order=3), 'load')
         add(spec('localp', 'localp-boundary', 2, 1, 2, order=-1), 'load')
